@@ -491,17 +491,19 @@ func round(context Context, args ...Result) (Result, error) {
 }
 
 func getRound(n float64) float64 {
-	if math.IsNaN(float64(n)) || math.IsInf(float64(n), 0) {
+	if math.IsNaN(n) || math.IsInf(n, 0) || math.Abs(n) >= 1<<52 {
+		// not a finite number, or already an integer
 		return n
 	}
 
-	if n < -0.5 {
-		n = float64(int(n - 0.5))
-	} else if n > 0.5 {
-		n = float64(int(n + 0.5))
-	} else {
-		n = 0
+	floor := math.Floor(n)
+	diff := n - floor
+
+	// A tie goes toward positive infinity.  Negative ties below -0.5 keep
+	// going away from zero, as they always have (round(-1.5) = -2).
+	if diff > 0.5 || (diff == 0.5 && n >= -0.5) {
+		return floor + 1
 	}
 
-	return n
+	return floor
 }
